@@ -22,6 +22,8 @@
 (* used for the "rel" / "abs" kinds and task['stdout_file'] /              *)
 (* task['stderr_file'] as the executor left them.                          *)
 (*                                                                         *)
+(* Every rank-level event carries r, the rank the launcher started (its    *)
+(* native rank variable), and rid, the RP_RANK the script ended up with.   *)
 (* The monitor is total.  A failing clause is added to errs as             *)
 (* "C10.<Clause>"; observations on the token classes that the shell        *)
 (* expands on purpose are added as "I10.<...>" (informational, never a     *)
@@ -41,7 +43,7 @@ Ev == T.events
 SeqSet(s) == {s[i] : i \in 1 .. Len(s)}
 ToEntry(e) == [k |-> e.k, on |-> SeqSet(e.on)]
 
-C == [ranks |-> T.cfg.ranks, lm |-> T.cfg.lm,
+C == [ranks |-> T.cfg.ranks, lm |-> T.cfg.lm, fl |-> T.cfg.fl,
       pre   |-> [i \in 1 .. Len(T.cfg.pre)  |-> ToEntry(T.cfg.pre[i])],
       post  |-> [i \in 1 .. Len(T.cfg.post) |-> ToEntry(T.cfg.post[i])],
       prel  |-> T.cfg.prel, postl |-> T.cfg.postl, sync |-> T.cfg.sync,
@@ -119,6 +121,7 @@ Step ==
                /\ prefailed' = IF e.sig = "pre_exec" /\ Fails(FF, "pre_exec", e.i, r)
                                THEN prefailed \cup {r} ELSE prefailed
                /\ errs' = errs
+                    \cup E(r = L \/ e.rid = RankIdOf(C, r, C.fl), "C10.RankId")
                     \cup E(e.who \in {-1, r}, "C10.PerRankOnly")
                     \cup E(~(e.sig = "pre_exec" /\ r \in seen), "C10.PreAfterExec")
                     \cup E(~(e.sig = "post_exec" /\ r \notin seen), "C10.PostBeforeExec")
@@ -134,6 +137,7 @@ Step ==
                /\ pos' = Advance(r, ExecMark)
                /\ seen' = seen \cup {r}
                /\ errs' = errs
+                    \cup E(e.rid = RankIdOf(C, r, C.fl), "C10.RankId")
                     \cup E(r \notin prefailed, "C10.FailedPreRanExec")
                     \cup E(r \notin seen, "C10.ExecTwice")
                     \cup OrderErrs(r, ExecMark, "C10.ExecUnexpected")
@@ -153,6 +157,7 @@ Step ==
           [] e.ev = "Ctrl" ->
                /\ reported' = reported \cup {e.r}
                /\ errs' = errs
+                    \cup E(e.r \notin Ranks(C) \/ e.rid = RankIdOf(C, e.r, C.fl), "C10.RankId")
                     \cup E(C.sto, "C10.StartupUnexpected")
                     \cup E(e.r = 0, "C10.StartupNotRankZero")
                     \cup E(e.r \notin reported, "C10.StartupTwice")
